@@ -39,6 +39,8 @@ DOMAINS = {
     "shift1000": (Fraction(1000), Fraction(1)),
     "milli": (Fraction(0), Fraction(1, 1024)),
     "neg": (Fraction(-3), Fraction(5)),
+    "end0": (Fraction(-1), Fraction(1)),      # ends exactly at 0
+    "allneg": (Fraction(-5), Fraction(3)),    # entirely negative
 }
 
 
@@ -113,7 +115,7 @@ def _bandwidth(rng: Rng, n, dim, wide):
 def _lp_case(rng: Rng, tier, force=None):
     force = force or {}
     dim = force.get("dim", rng.choice([1, 1, 1, 2]))
-    dom = force.get("dom", rng.choice(["unit", "unit", "doy", "shift1000", "milli", "neg"]))
+    dom = force.get("dom", rng.choice(["unit", "unit", "doy", "shift1000", "milli", "neg", "end0", "allneg"]))
     lo, scale = DOMAINS[dom]
     kernel = force.get("kernel", rng.choice(KERNELS))
     degree = force.get("degree", rng.choice([0, 1, 1, 2, 2, 3]))
@@ -514,7 +516,7 @@ def oracle(case, impl):
         return vs
     st = _status(case, impl)
     sc = _scale(case)
-    dom = [case["dom"]] + (["away_from_unit_interval"] if case["dom"] not in ("unit", "neg") else [])
+    dom = [case["dom"]] + (["away_from_unit_interval"] if case["dom"] not in ("unit", "neg", "end0") else [])
     q = case["q"]
 
     def near(f, g, scale, tol=RTOL_ORACLE):
